@@ -291,7 +291,9 @@ BoolFold(isAnd, xs) ==
 \* x[k] for a constant k
 Index(x, k) ==
   IF Bad(x) THEN x
-  ELSE IF x.t.t = "tuple" THEN (IF k >= 0 /\ k < Len(x.v) THEN x.v[k + 1] ELSE Undef("tuple-index"))
+  ELSE IF x.t.t = "tuple" THEN (IF k >= 0 /\ k < Len(x.v) THEN x.v[k + 1]
+                                ELSE IF k < 0 /\ k >= -Len(x.v) THEN x.v[Len(x.v) + k + 1]      \* Python: t[-1] is the last element
+                                ELSE Undef("tuple-index"))
   ELSE IF IsIntLike(x.t) THEN
        IF k < 0 \/ k >= x.t.w THEN Undef("bit-index")
        ELSE Ok(TBool, ((x.v % 65536) \div P2(k)) % 2 = 1, IF x.det > k THEN INF ELSE 0, FALSE, x.trig)
